@@ -573,6 +573,17 @@ def fold_body(folder, fn, env, self_attrs=True):
 
     class _Self(object):
         pass
+    # constants defined at class level are read through self
+    cls = getattr(fn, "_parent", None)
+    if isinstance(cls, ast.ClassDef) and self_attrs:
+        for s_ in cls.body:
+            if isinstance(s_, ast.Assign) and len(s_.targets) == 1 and \
+                    isinstance(s_.targets[0], ast.Name):
+                try:
+                    env.setdefault("self." + s_.targets[0].id, folder.eval(
+                        s_.value, dict(folder.module_env(mod.name)), mod))
+                except (FoldError, AnalysisError):
+                    pass
 
     def ev(e):
         full = dict(folder.module_env(mod.name))
@@ -602,6 +613,10 @@ def fold_body(folder, fn, env, self_attrs=True):
                         for tt, vv in zip(t.elts, v):
                             if isinstance(tt, ast.Name):
                                 env[tt.id] = vv
+                            elif isinstance(tt, ast.Attribute) and \
+                                    isinstance(tt.value, ast.Name) and \
+                                    tt.value.id == "self":
+                                env["self." + tt.attr] = vv
                 continue
             if isinstance(s, ast.If):
                 c = ev(s.test)
